@@ -325,15 +325,49 @@ def differential_script(src, c, n=200, seed=0, atoms=None, repo=None, extra_requ
     return len(cases), mism
 
 
-def differential(src, c, n=200, seed=0, atoms=None, repo=None, depth=2, extra_requires=()):
+def exact_case(c, model, seed=0):
+    """the solver's counter-model as one concrete input of contract c: {param: spec value}, or None when it cannot be rebuilt
+    (a parameter of an engine-only sort, a value that does not convert).  Parameters the model leaves open get a generated value."""
+    import re as _re
+    g = Gen(seed, None)
+    vals = {}
+    hit = 0
+    for p, s in c.params:
+        if s == "Any":
+            return None
+        key = None
+        for k in model:
+            if k == p or _re.fullmatch(_re.escape(p) + r"!\d+", k):
+                key = k
+                break
+        if key is None:
+            vals[p] = g.gen(s, 1)
+            continue
+        try:
+            vals[p] = from_json(model[key]) if isinstance(model[key], (dict, list)) else model[key]
+            hit += 1
+        except Exception:
+            return None
+    return vals if hit else None
+
+
+def differential(src, c, n=200, seed=0, atoms=None, repo=None, depth=2, extra_requires=(), exact=None):
     if getattr(c, "diff", None) is not None:
         return differential_script(src, c, n, seed, atoms, repo, extra_requires)
     py_env, js_env = bind_real_env()
     """Run the real function of contract c on n generated inputs satisfying `requires` and compare with
-    the executable spec.  Returns (tested, mismatches[list of dict])."""
+    the executable spec.  Returns (tested, mismatches[list of dict]).  `exact`: run exactly these inputs instead."""
     g = Gen(seed, atoms)
     cases = []
     tries = 0
+    if exact is not None:
+        for vals in exact:
+            try:
+                if all(eval_spec(r, vals) for r in list(c.requires) + list(extra_requires)):
+                    cases.append(vals)
+            except Exception:
+                pass
+        n = 0
     while len(cases) < n and tries < n * 20:
         tries += 1
         vals = {p: g.gen(s, depth) for p, s in c.params}
